@@ -390,7 +390,22 @@ def arrival_enterable(ctx: Ctx):
                         for coll, key in (("vehicles", "SELF.vehicle_id"), ("requests", "SELF.request_id"), ("stations", "SELF.station_id"), ("bases", "SELF.base_id")):
                             d0 = d0.replace(f"SIM.{coll}.get({key}).id", key)
                         return d0
-                    bound = {(bind(d0), p0) for d0, p0 in common}
+                    # the successor's conditions as they read for THIS hand-over (the previous activity is this one): a test that only
+                    # applies to other predecessors demands nothing here
+                    own_t = _own_type(repo, sc)
+                    if own_t is not None:
+                        sets_s = []
+                        for m in succ:
+                            st_ = set()
+                            for a, pol in m.path.facts():
+                                a2 = gd.as_previous(a, own_t, sc.name)
+                                if not isinstance(a2, ast.Constant):
+                                    st_.add((states.ndump(a2, kren), pol))
+                            sets_s.append(st_)
+                        common_s = set.intersection(*sets_s)
+                    else:
+                        common_s = common
+                    bound = {(bind(d0), p0) for d0, p0 in common_s}
                     for dd, pol_ in sorted(bound):
                         if not any(mk in dd for mk in STATIC_MARKERS):
                             continue
